@@ -119,6 +119,14 @@ fn prepared_layers() -> Ptr<raw::Layers> {
     }
     Ptr::new(layers)
 }
+/// "nolayers": true = the importer starts from no layer table at all and creates every layer as it meets it
+fn layers_arg(case: &Value) -> Option<Ptr<raw::Layers>> {
+    if case["nolayers"].as_bool().unwrap_or(false) {
+        None
+    } else {
+        Some(prepared_layers())
+    }
+}
 fn once(case: &Value) -> Vec<(String, String)> {
     let mut out = Vec::new();
     match case["src"].as_str().unwrap_or("") {
@@ -126,7 +134,7 @@ fn once(case: &Value) -> Vec<(String, String)> {
             let bytes = hex_decode(case["hex"].as_str().unwrap());
             match gds21::GdsLibrary::from_bytes(&bytes) {
                 Err(e) => out.push(("gds_read".into(), format!("ERR {}", short(&format!("{:?}", e))))),
-                Ok(g) => match raw::Library::from_gds(&g, Some(prepared_layers())) {
+                Ok(g) => match raw::Library::from_gds(&g, layers_arg(case)) {
                     Err(e) => out.push(("gds_to_raw".into(), format!("ERR {}", short(&format!("{:?}", e))))),
                     Ok(lib) => chain_from_raw(&lib, &mut out),
                 },
@@ -141,7 +149,7 @@ fn once(case: &Value) -> Vec<(String, String)> {
             let _ = std::fs::remove_file(&path);
             match r {
                 Err(e) => out.push(("lef_read".into(), format!("ERR {}", short(&format!("{:?}", e))))),
-                Ok(l) => match raw::lef::LefImporter::import(&l, Some(prepared_layers())) {
+                Ok(l) => match raw::lef::LefImporter::import(&l, layers_arg(case)) {
                     Err(e) => out.push(("lef_to_raw".into(), format!("ERR {}", short(&format!("{:?}", e))))),
                     Ok(lib) => chain_from_raw(&lib, &mut out),
                 },
@@ -155,9 +163,58 @@ fn once(case: &Value) -> Vec<(String, String)> {
             let cspecs = case["cells"].as_array().unwrap();
             let ptrs: Vec<Ptr<raw::Cell>> =
                 cspecs.iter().map(|c| lib.cells.insert(raw::Cell::new(c["name"].as_str().unwrap()))).collect();
+            // optional per cell (generator audit 2026-10-02): "elems": [[layer number, purpose 0 Drawing | 1 Pin | 3 Obstruction, x, y, net|null]],
+            // "abs": {"ports": [[[layer number, shapes], ..] per port], "blk": [[layer number, shapes], ..]}, "nolayout": true (abstract only)
+            let keys: Vec<(i16, raw::LayerKey)> = {
+                let l = lib.layers.read().unwrap();
+                [1i16, 2, 5, 7, 31, 66].iter().map(|n| (*n, l.keynum(*n).unwrap())).collect()
+            };
+            let key_of = |v: &Value| keys.iter().find(|(n, _)| *n as i64 == v.as_i64().unwrap()).expect("layer number of the prepared table").1;
+            let rects = |n: u64, off: isize| -> Vec<raw::Shape> {
+                (0..n as isize)
+                    .map(|j| {
+                        if j % 3 == 2 {
+                            raw::Shape::Polygon(raw::Polygon { points: vec![raw::Point::new(off + j, 0), raw::Point::new(off + j + 4, 0), raw::Point::new(off + j + 4, 3)] })
+                        } else {
+                            raw::Shape::Rect(raw::Rect { p0: raw::Point::new(off + 10 * j, j), p1: raw::Point::new(off + 10 * j + 5, j + 5) })
+                        }
+                    })
+                    .collect()
+            };
             for (c, p) in cspecs.iter().zip(ptrs.iter()) {
                 let mut cell = p.write().unwrap();
+                if let Some(a) = c.get("abs") {
+                    let outline = raw::Polygon { points: vec![raw::Point::new(0, 0), raw::Point::new(100, 0), raw::Point::new(100, 100), raw::Point::new(0, 100)] };
+                    let mut abs = raw::Abstract::new(c["name"].as_str().unwrap(), outline);
+                    for (pi, port) in a["ports"].as_array().unwrap().iter().enumerate() {
+                        let mut ap = raw::AbstractPort::new(format!("p{}", pi));
+                        for e in port.as_array().unwrap() {
+                            ap.shapes.insert(key_of(&e[0]), rects(e[1].as_u64().unwrap(), 7 * pi as isize));
+                        }
+                        abs.ports.push(ap);
+                    }
+                    for e in a["blk"].as_array().unwrap() {
+                        abs.blockages.insert(key_of(&e[0]), rects(e[1].as_u64().unwrap(), 50));
+                    }
+                    cell.abs = Some(abs);
+                }
+                if c["nolayout"].as_bool().unwrap_or(false) {
+                    continue;
+                }
                 let mut layout = raw::Layout { name: c["name"].as_str().unwrap().to_string(), insts: vec![], elems: vec![], annotations: vec![] };
+                for e in c["elems"].as_array().map(|a| a.as_slice()).unwrap_or(&[]) {
+                    let (x, y) = (e[2].as_i64().unwrap() as isize, e[3].as_i64().unwrap() as isize);
+                    layout.elems.push(raw::Element {
+                        net: e[4].as_str().map(|s| s.to_string()),
+                        layer: key_of(&e[0]),
+                        purpose: match e[1].as_i64().unwrap() {
+                            1 => raw::LayerPurpose::Pin,
+                            3 => raw::LayerPurpose::Obstruction,
+                            _ => raw::LayerPurpose::Drawing,
+                        },
+                        inner: raw::Shape::Rect(raw::Rect { p0: raw::Point::new(x, y), p1: raw::Point::new(x + 6, y + 4) }),
+                    });
+                }
                 for (k, i) in c["insts"].as_array().unwrap().iter().enumerate() {
                     layout.insts.push(raw::Instance {
                         inst_name: format!("i{}", k),
